@@ -1,3 +1,4 @@
+pub mod c01;
 pub mod c06;
 pub mod c08;
 pub mod c09;
@@ -8,6 +9,7 @@ pub mod c17;
 use crate::runner::Property;
 pub fn by_id(id: &str) -> Option<Property> {
     Some(match id {
+        "C01" => c01::property(),
         "C06" => c06::property(),
         "C08" => c08::property(),
         "C09" => c09::property(),
@@ -18,4 +20,4 @@ pub fn by_id(id: &str) -> Option<Property> {
         _ => return None,
     })
 }
-pub const ALL: &[&str] = &["C06", "C08", "C09", "C10", "C11", "C16", "C17"];
+pub const ALL: &[&str] = &["C01", "C06", "C08", "C09", "C10", "C11", "C16", "C17"];
